@@ -154,6 +154,8 @@ def trusted_scan(text):
             if re.search(pat, code):
                 # the item it applies to: next line(s) containing fn/struct/type name
                 ctx = code.strip()
+                if kind == "external_body" and i > 0 and lines[i - 1].startswith("// ---- contract imported from unit"):
+                    continue
                 if kind in ("external_body", "external", "external_type_specification", "external_trait_specification"):
                     for k in range(i, min(i + 6, len(lines))):
                         m = re.search(r"\b(fn|struct|trait|enum|type)\s+([A-Za-z_0-9]+)", lines[k].split("//")[0])
